@@ -62,6 +62,7 @@ def _run(root, ids):
     for r in rep["results"]:
         res[r["codemod"]] = {"changes": sorted((cs["path"], cs["diff"]) for cs in r["changeset"]),
                              "failed": sorted(os.path.relpath(f, root) if os.path.isabs(f) else f for f in (r.get("failedFiles") or []))}
+    res["__order__"] = [r["codemod"] for r in rep["results"]]
     return rc, res
 
 
@@ -79,9 +80,11 @@ def run_batch_vs_single(tier="quick", seed=0):
                     os.makedirs(os.path.dirname(os.path.join(root, f)), exist_ok=True)
                     open(os.path.join(root, f), "w").write(text)
             rc_a, res_a = _run(a, seq)
+            order_a = res_a.pop("__order__", [])
             res_b, rc_b = {}, 0
             for cid in seq:
                 rc, r = _run(b, [cid])
+                r.pop("__order__", None)
                 rc_b = rc_b or rc
                 res_b.update(r)
             evals += 1
@@ -89,6 +92,8 @@ def run_batch_vs_single(tier="quick", seed=0):
             w = None
             if rc_a != 0 or rc_b != 0:
                 w = {"clause": "the runs complete", "status batch": rc_a, "status single": rc_b}
+            elif order_a != seq:
+                w = {"clause": "the report lists one result per executed codemod, in execution order", "report order": order_a, "execution order": seq}
             elif ta != tb:
                 diff = sorted(f for f in set(ta) | set(tb) if ta.get(f) != tb.get(f))
                 w = {"clause": "tree(batch) == tree(one at a time)", "files that differ": diff,
